@@ -27,10 +27,14 @@ Reads
           not in the refusing one                                                         -> AcctDispatchedOnly
       anything else (no increment, conditional increment elsewhere, a reset, `-=`) is "not found".  No `continue` in
       the function (a round that skipped the accounting).  DEFAULT_MAX_TOOL_CALLS from provider_openresponses.rs.
+  crates/ripd/src/server.rs   thread_post_message — the suspension points of the handler: between `store.append_message(`
+      and `.spawn_session(` (with `.append_run_spawned(` in between) there is no `.await` except inside the `Err` arm of
+      the append_message match, which returns (nothing was appended) -> PoLockFirst; an `.await` in between (the session
+      map's lock, a spawn_blocking, …) -> PoAppendFirst: a request future dropped there leaves a message without a run.
 Emits coq/Gen/RunLifecycleGen.v: gen_guard, gen_exit_order, gen_returns, gen_end_frames, gen_end_frames_skipping,
 gen_http_err_prefix, gen_http_err_sep, gen_http_err_cap, gen_run_path_slices, gen_acct, gen_max_tool_calls,
-gen_loop_continues, gen_ok_run_lifecycle and the obligations gen_guard_ok / gen_exit_ok / gen_http_err_ok / gen_budget_ok /
-gen_acct_all.  A construct that is not found sets gen_ok_run_lifecycle := false (never guess)."""
+gen_loop_continues, gen_post_order, gen_post_awaits_between, gen_ok_run_lifecycle and the obligations gen_guard_ok /
+gen_exit_ok / gen_http_err_ok / gen_budget_ok / gen_acct_all / gen_post_ok / gen_post_safe.  A construct that is not found sets gen_ok_run_lifecycle := false (never guess)."""
 import argparse, os, re, sys
 
 
@@ -275,6 +279,30 @@ def main():
                             else:
                                 need(False, "call loop: unrecognised placement of `tool_call_count += 1` (%d in the function, %d in the call loop, %d in the refusing branch, %d in the dispatching branches)" % (len(incs), len(fincs), len(in_refuse), len(in_chain)))
 
+    # ---------------------------------------------------------------- thread_post_message: suspension points between the appends
+    post_order, n_between = None, None
+    # (server.rs has quote characters in char literals: strings are blanked inside the function only)
+    pm = fn_body(rd("crates/ripd/src/server.rs"), r"async\s+fn\s+thread_post_message\s*\(")
+    pm = blank_strings(pm) if pm is not None else None
+    if need(pm is not None, "server.rs: fn thread_post_message not found"):
+        msgs = [x.start() for x in re.finditer(r"\bappend_message\s*\(", pm)]
+        spw = [x.start() for x in re.finditer(r"\.\s*append_run_spawned\s*\(", pm)]
+        sps = [x.start() for x in re.finditer(r"\.\s*spawn_session\s*\(", pm)]
+        if need(len(msgs) == 1 and len(spw) == 1 and len(sps) == 1 and msgs[0] < spw[0] < sps[0],
+                "thread_post_message: expected append_message, append_run_spawned, spawn_session once each, in that order"):
+            blk = block_after(pm, msgs[0])
+            b0 = pm.find(blk, msgs[0]) if blk is not None else -1
+            if need(blk is not None and b0 < spw[0] and re.search(r"Ok\(\s*id\s*\)\s*=>\s*id\s*,", blk) is not None,
+                    "thread_post_message: `match store.append_message(..) { Ok(id) => id, Err(..) => .. return .. }` not found"):
+                arm = blk.find("Err(")
+                arm_ok = arm >= 0 and "return" in blk[arm:]
+                need(arm_ok, "thread_post_message: the Err arm of append_message does not return")
+                lo, hi = b0 + (arm if arm >= 0 else len(blk)), b0 + len(blk)
+                aw = [x.start() for x in re.finditer(r"\.\s*await\b", pm) if msgs[0] < x.start() < sps[0]]
+                between = [x for x in aw if not (lo <= x < hi)]
+                n_between = len(between)
+                post_order = "PoLockFirst" if n_between == 0 else "PoAppendFirst"
+
     os.makedirs(a.out, exist_ok=True)
     with open(os.path.join(a.out, "RunLifecycleGen.v"), "w") as f:
         f.write("(* GENERATED by tools/gen/run_lifecycle.py from crates/ripd/src/{runner,session}.rs — do not edit *)\n")
@@ -300,6 +328,9 @@ def main():
         f.write("Definition gen_acct : acct := %s.\n" % (acct or "AcctDispatchedOnly"))
         f.write("Definition gen_max_tool_calls : N := %d.\n" % (max_calls if max_calls is not None else 0))
         f.write("Definition gen_loop_continues : N := %d.\n" % (n_cont if n_cont is not None else 999))
+        f.write("(* thread_post_message: `.await`s between append_message and spawn_session (outside the returning Err arm) *)\n")
+        f.write("Definition gen_post_order : post_order := %s.\n" % (post_order or "PoAppendFirst"))
+        f.write("Definition gen_post_awaits_between : N := %d.\n" % (n_between if n_between is not None else 999))
         f.write("Lemma gen_guard_ok : gen_ok_run_lifecycle && guard_atomic gen_guard && guard_kind_eqb gen_guard GUARD_KIND = true.\n")
         f.write("Proof. vm_compute. reflexivity. Qed.\n")
         f.write("Lemma gen_guard_atomic : guard_atomic gen_guard = true.\n")
@@ -311,6 +342,10 @@ def main():
         f.write("Lemma gen_budget_ok : gen_ok_run_lifecycle && acct_eqb gen_acct ACCT && (gen_max_tool_calls =? MAX_TOOL_CALLS) && (gen_loop_continues =? 0) = true.\n")
         f.write("Proof. vm_compute. reflexivity. Qed.\n")
         f.write("Lemma gen_acct_all : acct_all gen_acct = true.\n")
+        f.write("Proof. vm_compute. reflexivity. Qed.\n")
+        f.write("Lemma gen_post_ok : gen_ok_run_lifecycle && post_order_eqb gen_post_order POST_ORDER && (gen_post_awaits_between =? 0) = true.\n")
+        f.write("Proof. vm_compute. reflexivity. Qed.\n")
+        f.write("Lemma gen_post_safe : post_order_safe gen_post_order = true.\n")
         f.write("Proof. vm_compute. reflexivity. Qed.\n")
     for n in notes:
         print("run_lifecycle.py: " + n, file=sys.stderr)
